@@ -2852,7 +2852,9 @@ def constants_from_enum(cls=None, module=None):
 
 @register_finalize_hook
 def validate_macros_hook(config):
-  for ref in iterate_references(config, to=get_configurable(macro)):
+  # Compare against the registered wrapper itself: `get_configurable` would wrap
+  # it once more when a config scope is active, and then nothing would match.
+  for ref in iterate_references(config, to=_INVERSE_REGISTRY[macro].wrapper):
     validate_reference(ref, require_evaluation=True)
 
 
